@@ -1517,6 +1517,10 @@ def h_successors(I, st, a, t, b):
     return {'#iter': 'seq', 'items': tuple(out), 'pos': 0}
 
 
+def h_to_vec(I, st, a, t, b):
+    return tuple(_seq_of(I, st, a[0]))
+
+
 def h_iter_take(I, st, a, t, b):
     n = a[1]
     if not isinstance(n, int):
@@ -1709,7 +1713,7 @@ BUILTINS.update({
     'Vec::is_empty': h_is_empty, 'slice::is_empty': h_is_empty, 'slice::last': h_seq_last, 'slice::first': h_seq_first, 'slice::get': h_seq_get,
     'iter::once': h_iter_once, 'sources::once': h_iter_once, 'once::once': h_iter_once, 'Iterator::chain': h_iter_chain, 'slice::windows': h_windows, 'Option::unwrap': h_opt_unwrap,
     'IndexMut::index_mut': h_index_mut,
-    'Iterator::take': h_iter_take, 'Iterator::skip': h_iter_skip, 'slice::reverse': h_reverse, 'Vec::append': h_vec_append, 'mem::swap': h_mem_swap,
+    'slice::to_vec': h_to_vec, 'Iterator::take': h_iter_take, 'Iterator::skip': h_iter_skip, 'slice::reverse': h_reverse, 'Vec::append': h_vec_append, 'mem::swap': h_mem_swap,
     'PartialEq::eq': h_str_eq, 'str::eq': h_str_eq, 'iter::successors': h_successors, 'successors::successors': h_successors, 'sources::successors': h_successors,
     'Index::index': h_vec_index, 'Vec::new': h_vec_new, 'Vec::with_capacity': h_vec_new, 'Vec::push': h_vec_push, 'slice::iter_mut': h_iter_mut, 'Vec::iter_mut': h_iter_mut, 'Iterator::filter': h_iter_filter, 'Iterator::filter_map': h_iter_filter_map, 'Extend::extend': h_extend, 'Vec::extend': h_extend,
 })
